@@ -138,6 +138,9 @@ func (r *c07Run) exec(ctx context.Context, prog []*scopeT, fresh bool) {
 				}
 				r.add(fmt.Sprintf("E%d:%s", s.id, x))
 				r.exec(c, s.body, fresh)
+				if !s.ok && s.panics && s.id%4 == 0 {
+					panic(nil) // recover() answers nil for this one (go.mod says go 1.20): still not a success
+				}
 				if !s.ok && s.panics {
 					panic("business panicked")
 				}
